@@ -2925,7 +2925,10 @@ impl Gen {
         if presort {
             self.m("sortm m0".to_string());
         }
-        let f = self.ck.w.files[mf[self.rng.below(mf.len())]].clone();
+        // the text is written for one of the files: `serialize` sets xsi:schemaLocation of the shared root element to the
+        // version of that file - as a request of its own, so that the Lean model follows
+        let fid = mf[self.rng.below(mf.len())];
+        self.m(format!("ser f{fid}"));
         let root = self.ck.w.models[0].root_element();
         let ndel = self.rng.below(4);
         let nadd = self.rng.below(3);
@@ -2935,7 +2938,6 @@ impl Gen {
         let made = catch_unwind(AssertUnwindSafe(|| -> Option<String> {
             // the whole model as one document (not the view of one file: unkeyed siblings restricted to different files would
             // be merged by position, known finding c09:unkeyed-sibling-positional-merge); partial views arise by the deletions
-            let _ = f.serialize().ok()?; // sets xsi:schemaLocation of the root element to the version of `f`
             let text = format!("<?xml version=\"1.0\" encoding=\"utf-8\"?>\n{}", root.serialize());
             let tmp = AutosarModel::new();
             let (tf, _) = tmp.load_buffer(text.as_bytes(), "t.arxml", false).ok()?;
@@ -2986,7 +2988,6 @@ impl Gen {
             }
             Some(out)
         }));
-        self.ck.resync();
         let Ok(Some(text)) = made else { return };
         let j = self.ck.w.files.len();
         let strict = !relabel && self.rng.chance(1, 2);
@@ -3302,6 +3303,32 @@ pub fn doc_lines(bytes: &[u8], with_dump: bool) -> Vec<(String, String)> {
             if stop {
                 break;
             }
+        }
+    }
+    out
+}
+
+/// the world-protocol requests for loading several documents into one model in the given order (scenario `merge`): the state
+/// after every load, then the sorted model
+pub fn merge_lines(docs: &[(String, String)]) -> Vec<(String, String)> {
+    let mut out = vec![];
+    let mut w = World::new();
+    let mut reqs = vec!["reset".to_string(), "newmodel".to_string()];
+    for (name, text) in docs {
+        reqs.push(format!("load m0 {} 1 {}", hx(name), hex(text.as_bytes())));
+        reqs.push("dump".to_string());
+    }
+    reqs.push("sortm m0".to_string());
+    reqs.push("dump".to_string());
+    for r in reqs {
+        let a = match catch_unwind(AssertUnwindSafe(|| w.exec(&r))) {
+            Ok(a) => a,
+            Err(_) => "panic".to_string(),
+        };
+        let stop = r.starts_with("load") && !a.starts_with("ok");
+        out.push((r, a));
+        if stop {
+            break;
         }
     }
     out
